@@ -32,6 +32,9 @@ type replayCase struct {
 	Harness string      `json:"harness"`
 	Tier    string      `json:"tier"`
 	Tape    []tapeEntry `json:"tape"`
+	// Repeat > 1: run until an assertion fails or the harness panics (outcomes that
+	// depend on Go's randomised map iteration order), at most Repeat times.
+	Repeat int `json:"repeat"`
 }
 
 type replayResult struct {
@@ -47,6 +50,7 @@ type replayResult struct {
 	AssumeFail  bool              `json:"assume_failed"`
 	TapeMisses  []string          `json:"tape_misses,omitempty"`
 	WallClockOK bool              `json:"wall_clock_ok"`
+	Attempts    int               `json:"attempts,omitempty"`
 }
 
 type state struct {
@@ -248,7 +252,12 @@ func RunReplay(t *testing.T, harnesses map[string]func()) {
 		if !ok {
 			continue
 		}
-		results = append(results, runOne(c, h))
+		r := runOne(c, h)
+		for k := 1; k < c.Repeat && len(r.Failed) == 0 && r.Panic == ""; k++ {
+			r = runOne(c, h)
+			r.Attempts = k + 1
+		}
+		results = append(results, r)
 	}
 	enc, _ := json.MarshalIndent(results, "", " ")
 	if err := os.WriteFile(out, enc, 0o644); err != nil {
